@@ -455,6 +455,102 @@ T = NMeta("Other", (), {})
 d = {S1: "one"}
 RESULT = (bool(A), bool(B), "yes" if B else "no", S1 == S2, S1 is S2, S1 == T, S2 in d, T in d, d[S2], len({S1, S2, T}), S2 in [S1])
 ''', "(True, False, 'no', True, False, False, True, False, 'one', 2, True)"),
+    ("contextmanager-plain-and-try-shapes", '''
+import contextlib
+LOG = []
+@contextlib.contextmanager
+def plain(tag):
+    LOG.append(("enter", tag))
+    yield tag.upper()
+    LOG.append(("exit", tag))
+@contextlib.contextmanager
+def guarded(tag):
+    LOG.append(("enter", tag))
+    try:
+        yield
+    except KeyError:
+        LOG.append(("swallowed", tag))
+    finally:
+        LOG.append(("finally", tag))
+    LOG.append(("after", tag))
+with plain("a") as v:
+    LOG.append(("body", v))
+try:
+    with plain("b"):
+        raise ValueError("x")
+except ValueError:
+    LOG.append(("propagated", "b"))
+with guarded("c"):
+    pass
+with guarded("d"):
+    raise KeyError("k")
+try:
+    with guarded("e"):
+        raise ValueError("v")
+except ValueError:
+    LOG.append(("propagated", "e"))
+RESULT = LOG
+''', "[('enter', 'a'), ('body', 'A'), ('exit', 'a'), ('enter', 'b'), ('propagated', 'b'), ('enter', 'c'), ('finally', 'c'), ('after', 'c'), ('enter', 'd'), ('swallowed', 'd'), ('finally', 'd'), ('after', 'd'), ('enter', 'e'), ('finally', 'e'), ('propagated', 'e')]"),
+    ("weak-containers-behave-as-containers-while-keys-live", '''
+import weakref
+class K: pass
+a, b = K(), K()
+d = weakref.WeakKeyDictionary()
+d[a] = 1
+s = weakref.WeakSet()
+s.add(b)
+RESULT = (a in d, b in d, d.get(a), len(d), b in s, a in s)
+''', "(True, False, 1, 1, True, False)"),
+    ("contextmanager-as-method", '''
+import contextlib
+class L:
+    def __init__(self): self.busy = False; self.log = []
+    @contextlib.contextmanager
+    def _updating(self, tag):
+        self.busy = True
+        yield
+        self.busy = False
+    def work(self, fail):
+        with self._updating("w"):
+            self.log.append(self.busy)
+            if fail:
+                raise IndexError("x")
+l = L()
+l.work(False)
+try:
+    l.work(True)
+except IndexError:
+    pass
+RESULT = (l.log, l.busy)
+''', "([True, True], True)"),
+    ("singledispatch-nearest-class-along-the-mro", '''
+import functools, types
+class A: pass
+class B(A): pass
+class C(B): pass
+@functools.singledispatch
+def kind(x): return "object"
+@kind.register(A)
+def _(x): return "A"
+@kind.register(C)
+def _(x): return "C"
+@kind.register(types.MappingProxyType)
+def _(x): return "proxy"
+@kind.register(dict)
+def _(x): return "dict"
+RESULT = (kind(1), kind(A()), kind(B()), kind(C()), kind({}), kind(types.MappingProxyType({})))
+''', "('object', 'A', 'A', 'C', 'dict', 'proxy')"),
+    ("user-equality-inside-tuples-and-lru-cache", '''
+import functools
+class P:
+    def __init__(self, k, tag): self.k, self.tag = k, tag
+    def __eq__(self, o): return isinstance(o, P) and o.k == self.k
+    def __hash__(self): return hash(self.k)
+a, x, b = P(1, "a"), P(1, "x"), P(2, "b")
+label = functools.lru_cache(maxsize=None)(lambda p: p.tag)
+d = {(a, 1): "first"}
+RESULT = ((a,) == (x,), (a, b) == (x, b), (a,) == (b,), [a] == [x], (x, 1) in d, d.get((b, 1)), label(a), label(x), label(b), [a, b].index(x), (a, 2) in d)
+''', "(True, True, False, True, True, None, 'a', 'a', 'b', 0, False)"),
 ]
 
 
